@@ -540,6 +540,12 @@ func cmdMicro(prop string, n int, seed uint64, driver, out string) (*Result, err
 			mc = genNestCase(r)
 		case "C19":
 			mc = genOptionsCase(r)
+		case "C15":
+			if i%3 == 2 {
+				mc = genSegBuilderCase(r)
+			} else {
+				mc = genBuilderCase(r)
+			}
 		case "C07":
 			mc = genMonotoneCase(r, &prof)
 		}
@@ -551,6 +557,7 @@ func cmdMicro(prop string, n int, seed uint64, driver, out string) (*Result, err
 		"C06": "direct calls of the bucket routine through the verif hook (keys/salts sized around the 100-byte buffer and its doublings, seeds incl. int64 extremes, bucketBy of every JSON type, secondary), LocalBuffer op sequences from several initial capacities, hex strings; non-trivial = a hash was actually computed / buffer regrown / hex accepted",
 		"C04": "go-semver parse+compare and ldattr reference parsing against their Gallina models (dependency models the operator theorems rest on); non-trivial = both inputs parse",
 		"C17": "well-formed flag / segment documents whose free value (variations, clause values, unknown property) nests around the limit of 10000, beside string literals full of brackets, escaped quotes and backslashes, through UnmarshalFeatureFlag / UnmarshalSegment; the model answers from the byte-level scan; non-trivial = total depth within 2 of the limit",
+		"C15": "sequences of calls on one ldbuilders.FlagBuilder / SegmentBuilder (setters repeated, rule builders reused for several rules, values of intermediate Build() calls kept and looked at again, intermediate Build() calls, rule builders with the clause helpers, Variation / Rollout / Experiment / Bucket helpers); the flag the last Build() returns is encoded by the library and compared with the encoding of the model's fold of the same calls (Builders.v); the encoding must be a fixed point of decode/encode; non-trivial = at least three calls",
 		"C19": "option lists for NewEvaluatorWithOptions with nil entries, repeated options, nil loggers and nil providers; what the evaluator ended up configured with is read off three probe evaluations (secondary key hashed, error line written for a malformed flag, big-segment store asked); the model folds the list; non-trivial = at least two entries",
 		"C18": "ValueToTimestamp on rendered instants of years 0000-9999 (random offset, fraction, case), corrupted/truncated renderings, epoch numbers incl. extremes; non-trivial = accepted as a timestamp",
 		"C07": "pairs of rollouts where one bucket grows at the expense of later ones, and segment rules with growing weight, on contexts whose bucket is adjacent to the split; non-trivial = the context was in the grown bucket",
@@ -573,6 +580,9 @@ func cmdMicro(prop string, n int, seed uint64, driver, out string) (*Result, err
 		seen[h] = true
 		mt := ParseLine(answers[i])
 		ms, is := mt.String(), mc.impl.String()
+		if mc.class == "builders" {
+			ms = sortWireObjects(mt).String()
+		}
 		if mc.class == "monotone" && mt != nil && len(mt.L) == 2 {
 			ix := func(o *Out) string {
 				if o.Status != 1 {
